@@ -2,8 +2,22 @@
 C05 — result backend, flavor, dimension and coordinate system follow the stated rules.
 Theorems about the hand-written executable glue model (`Glue/Core.lean`, `Glue/Methods.lean`) and the generated
 dispatch tables (`Gen/Tables.lean`), for every scalar type `S`, truth type `B` and compute layer `ev`.
+
+Sections:
+1. `handlerOf` — first operand of maximal backend priority.
+3. `wrapVec` / `_wrap_result` — dimension and coordinate system per declared result shape; `PartsWF`, `resultDim`.
+2. `dispatch` — inversion lemmas; backend = handler's, flavor = OR of the counted operands.
+5. generated tables — `allKeys`, totality and exactness (`decide +kernel`), well-formed declared results.
+4. dimension guards of `binary` and of `rotate_axis`.
+6. operators are their methods.
++  coordinate system depends only on operand types (`c05_dispatch_type_only`, under `EvTables`),
+   documented dimension method by method (`c05_binary_dim`, `c05_scaleN_dim`, `c05_to_beta3_dim`, `c05_toDim_dim`, …),
+   every method is defined for every coordinate system (`c05_dispatch_defined`, under `EvTotal`),
+   and proofs that the generated executable compute layer satisfies `EvTables` and `EvTotal`.
 -/
 import VectorModel.Glue.Methods
+import VectorModel.Gen.Exec.All
+import Lean.Elab.Tactic
 
 set_option linter.constructorNameAsVariable false
 set_option linter.unusedVariables false
@@ -938,6 +952,1032 @@ theorem c05_dispatch_truth_kind (ev : Ev S B) (hev : EvTables ev) (m : ModuleId)
   obtain ⟨rfl, _⟩ := c05_wrapResult_truth _ _ _ _ _ _ hw
   have hk := c05_module_kind m _ (lookup_mem _ _ _ (hev.ret_declared _ _ _ _ _ he))
   simp [retKind] at hk; exact hk.symm
+
+private theorem dispatch_self_dim (ev : Ev S B) (hev : EvTables ev) (m : ModuleId) (sc : List S) (ord : Option Ord)
+    (ops : List (Vec S)) (self r : Vec S) (h : dispatch ev m sc ord ops [self] = .ok (.vec r)) :
+    r.ty.dim = kindDim m.kind self.ty.dim ∧ m.kind.isVec = true := by
+  obtain ⟨hd, hh, h1, h2⟩ := c05_dispatch_dim_kind ev hev m sc ord ops [self] r h
+  have : handlerOf [self] = some self := rfl
+  rw [this] at hh; cases hh
+  exact ⟨h1, h2⟩
+
+private theorem dispatch_pair_dim (ev : Ev S B) (hev : EvTables ev) (m : ModuleId) (sc : List S) (ord : Option Ord)
+    (ops : List (Vec S)) (a b r : Vec S) (h : dispatch ev m sc ord ops [a, b] = .ok (.vec r)) :
+    (r.ty.dim = kindDim m.kind a.ty.dim ∨ r.ty.dim = kindDim m.kind b.ty.dim) ∧ m.kind.isVec = true := by
+  obtain ⟨hd, hh, h1, h2⟩ := c05_dispatch_dim_kind ev hev m sc ord ops [a, b] r h
+  rw [c05_handlerOf_pair] at hh
+  cases hh
+  refine ⟨?_, h2⟩
+  split at h1
+  · exact Or.inr h1
+  · exact Or.inl h1
+
+private theorem sameDimMod_kind (b : Bin) (d : Nat) (m : ModuleId) (hm : b.sameDimMod d = some m)
+    (hd : d = 2 ∨ d = 3 ∨ d = 4) (hv : m.kind.isVec = true) : kindDim m.kind d = d := by
+  rcases hd with rfl | rfl | rfl <;> cases b <;> simp [Bin.sameDimMod] at hm <;> subst hm <;>
+    first | rfl | (exact absurd hv (by decide))
+
+/-- `scale` with the module of dimension `n` keeps the dimension of the vector (`scale2D` of a 4D vector is 4D) -/
+theorem c05_scaleN_dim (ev : Ev S B) (hev : EvTables ev) (n : Nat) (hn : n = 2 ∨ n = 3 ∨ n = 4) (f : S) (v r : Vec S)
+    (h : scaleN ev n f v = .ok (.vec r)) : r.ty.dim = v.ty.dim := by
+  unfold scaleN at h
+  split at h
+  · cases h
+  · rename_i hge
+    obtain ⟨h1, _⟩ := dispatch_self_dim ev hev _ _ _ _ _ _ h
+    rw [h1]
+    have hr := c05_dim_range v.ty
+    rcases hn with rfl | rfl | rfl <;> simp only [scaleMod, ModuleId.kind, kindDim] <;> (try split) <;> omega
+
+set_option maxRecDepth 8000 in
+/-- C05, dimension of the result of the binary methods: `cross` gives 3D, everything else the dimension of `self`
+(the first operand) -/
+theorem c05_binary_dim (ev : Ev S B) (hev : EvTables ev) (K : Consts S) (b : Bin) (self o r : Vec S) (extra : List S)
+    (h : binary ev K b self o extra = .ok (.vec r)) : r.ty.dim = if b = .cross then 3 else self.ty.dim := by
+  have hr := c05_dim_range self.ty
+  by_cases hb : b.sameDim = true
+  · have hne : b ≠ .cross := by rintro rfl; simp [Bin.sameDim] at hb
+    rw [if_neg hne]
+    by_cases hd : o.ty.dim = self.ty.dim
+    · obtain ⟨m, hm, e⟩ := c05_binary_sameDim_ok ev K b self o extra hb hd
+      rw [e] at h
+      obtain ⟨h1, h2⟩ := dispatch_pair_dim ev hev _ _ _ _ _ _ _ h
+      rw [hd, or_self] at h1
+      rw [h1, sameDimMod_kind b _ m hm hr h2]
+    · rw [c05_binary_sameDim_guard ev K b self o extra hb hd] at h; cases h
+  · cases b <;> simp [Bin.sameDim] at hb <;> simp only [binary] at h <;> (repeat' split at h) <;>
+      first
+      | (cases h; done)
+      | (obtain ⟨h1, h2⟩ := dispatch_pair_dim ev hev _ _ _ _ _ _ _ h
+         first
+         | (exact absurd h2 (by decide))
+         | (simp only [ModuleId.kind, kindDim, or_self] at h1
+            first | (rw [if_pos rfl]; exact h1) | (rw [if_neg (by decide)]; omega)))
+
+/-- a unary method (only `self` is an operand and counts) has the dimension given by its module's kind: the dimension of
+`self` for `[az]` and `[az, lon]` modules applied to vectors that have the coordinates, 3 for `[az, lon, None]`
+(`to_beta3`), 4 for `[az, lon, tmp]` -/
+theorem c05_unary_dim (ev : Ev S B) (hev : EvTables ev) (m : ModuleId) (sc : List S) (ord : Option Ord)
+    (self r : Vec S) (h : dispatch ev m sc ord [self] [self] = .ok (.vec r)) :
+    r.ty.dim = kindDim m.kind self.ty.dim := (dispatch_self_dim ev hev m sc ord [self] self r h).1
+
+/-- `to_beta3` gives a 3D vector -/
+theorem c05_to_beta3_dim (ev : Ev S B) (hev : EvTables ev) (K : Consts S) (A : Arith S) (self r : Vec S)
+    (h : call ev K A "to_beta3" self [] = .ok (.vec r)) : r.ty.dim = 3 := by
+  have e : call ev K A "to_beta3" self [] =
+      if self.ty.dim < 4 then .error .attributeError else dispatch ev .lorentz_to_beta3 [] none [self] [self] := rfl
+  rw [e] at h
+  split at h
+  · cases h
+  · exact c05_unary_dim ev hev _ _ _ _ _ h
+
+/-- `rotate_axis` keeps the dimension of `self` (a 4D vector keeps its temporal coordinate) -/
+theorem c05_rotate_axis_dim (ev : Ev S B) (hev : EvTables ev) (K : Consts S) (A : Arith S) (self axis r : Vec S) (a : S)
+    (h : call ev K A "rotate_axis" self [.v axis, .sc a] = .ok (.vec r)) : r.ty.dim = self.ty.dim := by
+  rw [c05_call_rotate_axis] at h
+  have hr := c05_dim_range self.ty
+  split at h
+  · cases h
+  · split at h
+    · cases h
+    · obtain ⟨h1, _⟩ := dispatch_self_dim ev hev _ _ _ _ _ _ h
+      rw [h1]
+      simp only [ModuleId.kind, kindDim]
+      split <;> omega
+
+/-- the dimension-changing conversions (`to_Vector2D/3D/4D`, `to_2D/3D/4D`, `like`) give the named dimension and keep
+backend, flavor and azimuthal system -/
+theorem c05_toDim_dim (zeroF : S) (target : Nat) (ht : target = 2 ∨ target = 3 ∨ target = 4) (v r : Vec S)
+    (lonKw : List (Lon × S)) (tmpKw : List (Tmp × S)) (otherKw : Nat)
+    (h : toDim zeroF target v lonKw tmpKw otherKw = .ok r) :
+    r.ty.dim = target ∧ r.ty.be = v.ty.be ∧ r.ty.mom = v.ty.mom ∧ r.ty.az = v.ty.az := by
+  unfold toDim at h
+  simp only [] at h
+  split at h
+  · cases h
+  · split at h
+    · cases h
+    · split at h
+      · rename_i he
+        cases h
+        have he2 : target = v.ty.dim := by simpa using he
+        exact ⟨he2.symm, rfl, rfl, rfl⟩
+      · cases h
+        refine ⟨?_, rfl, rfl, rfl⟩
+        unfold VT.dim
+        rcases ht with rfl | rfl | rfl <;> cases v.ty.lon <;> cases v.ty.tmp <;> simp
+/-- the coordinate-system conversions `to_<system>` give exactly the named coordinate system (hence the named dimension)
+and keep backend and flavor -/
+theorem c05_toSystem_type (ev : Ev S B) (zeroF : S) (v r : Vec S) (az : Az) (lon : Option Lon) (tmp : Option Tmp)
+    (kl kt : Option S) (h : toSystem ev zeroF v az lon tmp kl kt = .ok r) :
+    r.ty = { v.ty with az := az, lon := lon, tmp := tmp } := by
+  unfold toSystem at h
+  simp only [bind, Except.bind, pure, Except.pure] at h
+  repeat' split at h
+  all_goals first | (cases h; done) | (cases h; rfl)
+
+/-! ### every method is defined for every coordinate system of its operands (glue level) -/
+
+/-- the raw result has the form the declared kind of result requires -/
+def outFitsKind : Out S B → RKind → Bool
+  | .vals [_], .float => true
+  | .truth _, .bool => true
+  | .vals _, .A | .vals _, .AL | .vals _, .AL0 | .vals _, .ALT => true
+  | _, _ => false
+
+/-- assumptions on the compute layer: it is defined on every key of a module's key type (and every argument list of the
+module's arity), and its raw result has the form the module declares (both proved for the generated executable model
+below) -/
+structure EvTotal (ev : Ev S B) : Prop where
+  total : ∀ m k a, keyFits k m.info.shape = true → a.length = m.info.nscalar + m.info.ncoord → (ev m k a).isSome = true
+  out_fits : ∀ m k a out ret, ev m k a = some (out, ret) → outFitsKind out m.kind = true
+
+/-- key shape contributed by an operand of `n` key slots -/
+def slotShape : Nat → List KS
+  | 1 => [.az] | 2 => [.az, .lon] | 3 => [.az, .lon, .tmp] | _ => []
+
+/-- the key shape of every module is the concatenation of its operands' slots plus, possibly, the Euler order; its number
+of coordinate arguments is one more than the number of key slots, per operand -/
+theorem c05_shape_slots : ∀ m : ModuleId,
+    m.info.shape = ((operandSlots m.info.shape).map slotShape).flatten ++ (if m.info.shape.contains .ord then [.ord] else []) ∧
+    m.info.ncoord = ((operandSlots m.info.shape).map (· + 1)).sum ∧
+    (∀ n ∈ operandSlots m.info.shape, n = 1 ∨ n = 2 ∨ n = 3) := by
+  intro m
+  cases m <;> decide +kernel
+
+/-- the operand `v` has the coordinate groups `n` key slots need, and stores (at least) their coordinates -/
+def VecOK (v : Vec S) (n : Nat) : Prop :=
+  (2 ≤ n → v.ty.lon.isSome = true) ∧ (3 ≤ n → v.ty.tmp.isSome = true) ∧ n + 1 ≤ v.c.length
+
+private theorem operandKey_ok (v : Vec S) (n : Nat) (hn : n = 1 ∨ n = 2 ∨ n = 3) (hv : VecOK v n) :
+    ∃ ks cs, operandKey v n = some (ks, cs) ∧ keyFits ks (slotShape n) = true ∧ cs.length = n + 1 := by
+  obtain ⟨h2, h3, hl⟩ := hv
+  rcases hn with rfl | rfl | rfl
+  · exact ⟨_, _, rfl, rfl, by simp [Vec.azEl]; omega⟩
+  · have := h2 (by omega)
+    cases hlon : v.ty.lon with
+    | none => rw [hlon] at this; cases this
+    | some l =>
+      refine ⟨[.az v.ty.az, .lon l], v.azEl ++ v.lonEl, by simp [operandKey, hlon], rfl, ?_⟩
+      simp [Vec.azEl, Vec.lonEl, hlon]; omega
+  · have a2 := h2 (by omega)
+    have a3 := h3 (by omega)
+    cases hlon : v.ty.lon with
+    | none => rw [hlon] at a2; cases a2
+    | some l =>
+      cases htmp : v.ty.tmp with
+      | none => rw [htmp] at a3; cases a3
+      | some t =>
+        refine ⟨[.az v.ty.az, .lon l, .tmp t], v.azEl ++ v.lonEl ++ v.tmpEl, by simp [operandKey, hlon, htmp], rfl, ?_⟩
+        simp [Vec.azEl, Vec.lonEl, Vec.tmpEl, hlon, htmp]; omega
+
+private theorem keyFits_append : ∀ (k1 : List KA) (s1 : List KS) (k2 : List KA) (s2 : List KS),
+    keyFits k1 s1 = true → keyFits k2 s2 = true → keyFits (k1 ++ k2) (s1 ++ s2) = true := by
+  intro k1
+  induction k1 with
+  | nil => intro s1 k2 s2 h1 h2; cases s1 with
+    | nil => simpa using h2
+    | cons s r => simp [keyFits] at h1
+  | cons a k ih =>
+    intro s1 k2 s2 h1 h2
+    cases s1 with
+    | nil => simp [keyFits] at h1
+    | cons s r =>
+      simp only [keyFits, Bool.and_eq_true, List.cons_append] at h1 ⊢
+      exact ⟨h1.1, ih r k2 s2 h1.2 h2⟩
+
+private theorem mapM_ok : ∀ (l : List (Vec S × Nat)),
+    (∀ p ∈ l, (p.2 = 1 ∨ p.2 = 2 ∨ p.2 = 3) ∧ VecOK p.1 p.2) →
+    ∃ parts, l.mapM (fun p => operandKey p.1 p.2) = some parts ∧
+      keyFits (parts.map (·.1)).flatten ((l.map fun p => slotShape p.2).flatten) = true ∧
+      ((parts.map (·.2)).flatten).length = (l.map fun p => p.2 + 1).sum := by
+  intro l
+  induction l with
+  | nil => intro _; exact ⟨[], by simp, rfl, rfl⟩
+  | cons p l ih =>
+    intro h
+    obtain ⟨hn, hv⟩ := h p List.mem_cons_self
+    obtain ⟨ks, cs, e, hk, hc⟩ := operandKey_ok p.1 p.2 hn hv
+    obtain ⟨parts, e', hk', hc'⟩ := ih (fun q hq => h q (List.mem_cons_of_mem _ hq))
+    refine ⟨(ks, cs) :: parts, ?_, ?_, ?_⟩
+    · rw [List.mapM_cons, e, e']; rfl
+    · simp only [List.map_cons, List.flatten_cons]
+      exact keyFits_append _ _ _ _ hk hk'
+    · simp only [List.map_cons, List.flatten_cons, List.length_append, List.sum_cons, hc, hc']
+
+private theorem wrap_ok (hd : Vec S) (be : Backend) (mom : Bool) (out : Out S B) (ret : Ret) (k : RKind)
+    (hk : retKind ret = some k) (ho : outFitsKind out k = true) : ∃ res, wrapResult hd be mom out ret = .ok res := by
+  cases ret with
+  | float =>
+    simp [retKind] at hk; subst hk
+    cases out with
+    | truth b => simp [outFitsKind] at ho
+    | vals l =>
+      rcases l with _ | ⟨s, _ | ⟨s2, l⟩⟩
+      · simp [outFitsKind] at ho
+      · exact ⟨_, rfl⟩
+      · simp [outFitsKind] at ho
+  | bool =>
+    simp [retKind] at hk; subst hk
+    cases out with
+    | truth b => exact ⟨_, rfl⟩
+    | vals l => rcases l with _ | ⟨s, _ | ⟨s2, l⟩⟩ <;> simp [outFitsKind] at ho
+  | vec parts =>
+    have hwf : PartsWF parts = true := by
+      unfold retKind at hk
+      split at hk <;> first | (cases hk; done) | (rename_i heq; cases heq <;> rfl)
+    have hv : k.isVec = true := by
+      unfold retKind at hk
+      split at hk <;> first | (cases hk; done) | (rename_i heq; cases heq <;> (cases hk; rfl))
+    cases out with
+    | truth b => cases k <;> simp [outFitsKind, RKind.isVec] at ho hv
+    | vals raw =>
+      obtain ⟨r, hr⟩ := (c05_wrapVec_ok_iff hd be mom raw parts).mpr hwf
+      exact ⟨.vec r, by simp [wrapResult, hr, Except.map]⟩
+
+/-- C05, "every method is defined for every coordinate system of its operands": `dispatch` of ANY module succeeds — no
+TypeError, AttributeError or AssertionError — whenever it is given the module's number of scalars, one operand per
+operand position, each having (and storing) the coordinate groups that position needs, the Euler order iff the module
+takes one, and at least one counted operand; whatever the coordinate systems of the operands are. -/
+theorem c05_dispatch_defined (ev : Ev S B) (ht : EvTotal ev) (hev : EvTables ev) (m : ModuleId) (sc : List S)
+    (ord : Option Ord) (ops counted : List (Vec S))
+    (hsc : sc.length = m.info.nscalar)
+    (hlen : (operandSlots m.info.shape).length = ops.length)
+    (hops : ∀ p ∈ ops.zip (operandSlots m.info.shape), VecOK p.1 p.2)
+    (hord : ord.isSome = m.info.shape.contains .ord)
+    (hc : counted ≠ []) : ∃ res, dispatch ev m sc ord ops counted = .ok res := by
+  obtain ⟨hshape, hnc, hslots⟩ := c05_shape_slots m
+  have hl2 : (ops.zip (operandSlots m.info.shape)).map (·.2) = operandSlots m.info.shape :=
+    List.map_snd_zip (by omega)
+  obtain ⟨parts, e', hk', hc'⟩ := mapM_ok (ops.zip (operandSlots m.info.shape)) (by
+    intro p hp
+    exact ⟨hslots p.2 (List.of_mem_zip (a := p.1) (b := p.2) hp).2, hops p hp⟩)
+  have hmap1 : ((ops.zip (operandSlots m.info.shape)).map fun p => slotShape p.2) =
+      (operandSlots m.info.shape).map slotShape := by
+    rw [← hl2, List.map_map]; rw [hl2]; rfl
+  have hmap2 : ((ops.zip (operandSlots m.info.shape)).map fun p => p.2 + 1) =
+      (operandSlots m.info.shape).map (· + 1) := by
+    rw [← hl2, List.map_map]; rw [hl2]; rfl
+  rw [hmap1] at hk'
+  rw [hmap2, ← hnc] at hc'
+  have hkey : keyFits ((parts.map (·.1)).flatten ++
+      (match (generalizing := false) ord with | some o => [KA.ord o] | none => [])) m.info.shape = true := by
+    have : keyFits (match (generalizing := false) ord with | some o => [KA.ord o] | none => [])
+        (if m.info.shape.contains .ord then [KS.ord] else []) = true := by
+      cases ord with
+      | none => simp at hord; simp [hord, keyFits]
+      | some o => simp at hord; simp [hord, keyFits, KA.fits]
+    have h2 := keyFits_append _ _ _ _ hk' this
+    rw [← hshape] at h2
+    exact h2
+  have hargs : (sc ++ (parts.map (·.2)).flatten).length = m.info.nscalar + m.info.ncoord := by
+    rw [List.length_append, hsc, hc']
+  have hsome := ht.total m _ _ hkey hargs
+  obtain ⟨hd, hh⟩ := c05_handlerOf_isSome counted hc
+  unfold dispatch
+  simp only []
+  split
+  · rename_i hne; simp [hlen] at hne
+  · split
+    · rename_i heq
+      have := heq.symm.trans e'
+      cases this
+    · rename_i parts' heq
+      have hp : parts' = parts := Option.some.inj (heq.symm.trans e')
+      subst hp
+      split
+      · rename_i heq2
+        have h3 : Option.isSome (none : Option (Out S B × Ret)) = true :=
+          (congrArg Option.isSome heq2).symm.trans hsome
+        cases h3
+      · rename_i out ret heq2
+        split
+        · rename_i heq3; rw [hh] at heq3; cases heq3
+        · rename_i h heq3
+          have hk := c05_module_kind m _ (lookup_mem _ _ _ (hev.ret_declared _ _ _ _ _ heq2))
+          exact wrap_ok _ _ _ _ _ _ hk (ht.out_fits _ _ _ _ _ heq2)
+
+/-- a well-formed vector value: a temporal coordinate only together with a longitudinal one (2D, 3D, 4D classes), and
+exactly one stored value per coordinate -/
+def Vec.WF (v : Vec S) : Prop := (v.ty.tmp.isSome = true → v.ty.lon.isSome = true) ∧ v.c.length = v.ty.dim
+
+theorem c05_vecOK_of_WF (v : Vec S) (n : Nat) (hw : v.WF) (hn : n + 1 ≤ v.ty.dim) : VecOK v n := by
+  obtain ⟨h1, h2⟩ := hw
+  unfold VT.dim at hn h2
+  refine ⟨?_, ?_, ?_⟩
+  · intro h; revert h1 hn; cases v.ty.lon <;> cases v.ty.tmp <;> simp <;> omega
+  · intro h; revert h1 hn; cases v.ty.lon <;> cases v.ty.tmp <;> simp <;> omega
+  · omega
+
+private theorem sameDimMod_facts (K : Consts S) (b : Bin) (d : Nat) (m : ModuleId) (hb : b.sameDim = true)
+    (hd : d = 2 ∨ d = 3 ∨ d = 4) (hm : b.sameDimMod d = some m) :
+    (b.scalars K []).length = m.info.nscalar ∧ m.info.shape.contains .ord = false ∧
+      ∃ n, operandSlots m.info.shape = [n, n] ∧ n + 1 ≤ d := by
+  rcases hd with rfl | rfl | rfl <;> cases b <;> simp [Bin.sameDim] at hb <;> simp [Bin.sameDimMod] at hm <;>
+    subst hm <;> exact ⟨rfl, rfl, _, rfl, by decide⟩
+
+/-- … in particular the same-dimension binary methods (with default tolerances) never raise on two well-formed vectors
+of equal dimension, whatever their coordinate systems, backends and flavors -/
+theorem c05_binary_sameDim_defined (ev : Ev S B) (ht : EvTotal ev) (hev : EvTables ev) (K : Consts S) (b : Bin)
+    (self o : Vec S) (hb : b.sameDim = true) (hs : self.WF) (ho : o.WF) (hd : o.ty.dim = self.ty.dim) :
+    ∃ res, binary ev K b self o [] = .ok res := by
+  obtain ⟨m, hm, e⟩ := c05_binary_sameDim_ok ev K b self o [] hb hd
+  obtain ⟨h1, h2, n, h3, h4⟩ := sameDimMod_facts K b self.ty.dim m hb (c05_dim_range _) hm
+  rw [e]
+  refine c05_dispatch_defined ev ht hev m _ none [self, o] [self, o] h1 (by rw [h3]; rfl) ?_ (by rw [h2]; rfl) (by simp)
+  intro p hp
+  rw [h3] at hp
+  simp only [List.zip_cons_cons, List.zip_nil_right, List.mem_cons, List.not_mem_nil, or_false] at hp
+  rcases hp with rfl | rfl
+  · exact c05_vecOK_of_WF _ _ hs h4
+  · exact c05_vecOK_of_WF _ _ ho (by show n + 1 ≤ o.ty.dim; omega)
+
+/-! ### the hypotheses used above are satisfiable -/
+
+section Examples
+
+private def v2 : Vec Nat := ⟨{ be := .obj, mom := false, az := .xy, lon := none, tmp := none }, [1, 2]⟩
+private def v3 : Vec Nat := ⟨{ be := .np, mom := true, az := .rhophi, lon := some .eta, tmp := none }, [1, 2, 3]⟩
+private def v4 : Vec Nat := ⟨{ be := .ak, mom := false, az := .xy, lon := some .z, tmp := some .tau }, [1, 2, 3, 4]⟩
+private def ev0 : Ev Nat Bool := fun _ _ _ => none
+private def K0 : Consts Nat := ⟨0, 0, 0, 0, 0, 0, 0⟩
+
+example : v2.ty.dim = 2 ∧ v3.ty.dim = 3 ∧ v4.ty.dim = 4 := ⟨rfl, rfl, rfl⟩
+example : v2.WF ∧ v3.WF ∧ v4.WF := by
+  refine ⟨⟨?_, rfl⟩, ⟨?_, rfl⟩, ⟨?_, rfl⟩⟩ <;> simp [v2, v3, v4]
+/-- operands of different dimension: `add` is a TypeError (hypotheses of `c05_binary_sameDim_guard`) -/
+example : binary ev0 K0 .add v2 v3 [] = .error .typeError :=
+  c05_binary_sameDim_guard ev0 K0 .add v2 v3 [] rfl (by decide)
+/-- `cross` of a 3D and a 4D vector (hypotheses of `c05_cross_guard`) -/
+example : binary ev0 K0 .cross v3 v4 [] = .error .typeError :=
+  c05_cross_guard ev0 K0 v3 v4 [] (Or.inr (by decide))
+/-- `boost_p4` by a 3D vector, `boost_beta3` by a 4D vector -/
+example : binary ev0 K0 .boost_p4 v4 v3 [] = .error .typeError := c05_boost_p4_guard ev0 K0 v4 v3 [] rfl (by decide)
+example : binary ev0 K0 .boost_beta3 v4 v4 [] = .error .typeError := c05_boost_beta3_guard ev0 K0 v4 v4 [] rfl (by decide)
+/-- the handler of mixed backends is the Awkward operand, wherever it stands -/
+example : handlerOf [v2, v4, v3] = some v4 ∧ handlerOf [v4, v2] = some v4 := ⟨rfl, rfl⟩
+/-- `VecOK`: a 4D vector can fill a 3-slot operand position, a 2D vector cannot fill a 2-slot one -/
+example : VecOK v4 3 := c05_vecOK_of_WF v4 3 ⟨by simp [v4], rfl⟩ (by decide)
+example : ¬ VecOK v2 2 := fun h => by have := h.1 (by decide); simp [v2] at this
+/-- a key of the key type of `lorentz_boost_beta3`, and its declared result -/
+example : keyFits [.az .xy, .lon .eta, .tmp .tau, .az .rhophi, .lon .theta] ModuleId.lorentz_boost_beta3.info.shape = true ∧
+    declared .lorentz_boost_beta3 [.az .xy, .lon .eta, .tmp .tau, .az .rhophi, .lon .theta] =
+      some (.vec [.az .xy, .lon .z, .tmp .tau]) := by decide +kernel
+
+end Examples
+
+end
+end VG
+
+set_option linter.constructorNameAsVariable false
+set_option linter.unusedVariables false
+set_option linter.unusedSimpArgs false
+namespace VG
+open VK VE
+
+/-! ### the generated executable compute layer satisfies `EvTables` -/
+
+instance c05DecAz (p : Az → Prop) [DecidablePred p] : Decidable (∀ a, p a) :=
+  decidable_of_iff (∀ a ∈ Az.all, p a) ⟨fun h a => h a (by cases a <;> decide), fun h a _ => h a⟩
+instance c05DecLon (p : Lon → Prop) [DecidablePred p] : Decidable (∀ a, p a) :=
+  decidable_of_iff (∀ a ∈ Lon.all, p a) ⟨fun h a => h a (by cases a <;> decide), fun h a _ => h a⟩
+instance c05DecTmp (p : Tmp → Prop) [DecidablePred p] : Decidable (∀ a, p a) :=
+  decidable_of_iff (∀ a ∈ Tmp.all, p a) ⟨fun h a => h a (by cases a <;> decide), fun h a _ => h a⟩
+instance c05DecOrd (p : Ord → Prop) [DecidablePred p] : Decidable (∀ a, p a) :=
+  decidable_of_iff (∀ a ∈ Ord.all, p a) ⟨fun h a => h a (by cases a <;> decide), fun h a _ => h a⟩
+
+open Lean Elab Tactic Meta in
+/-- `cases` on the first hypothesis whose type is the given constant -/
+local elab "c05_cases_one " t:ident : tactic => withMainContext do
+  let n ← realizeGlobalConstNoOverloadWithInfo t
+  for d in (← getLCtx) do
+    if d.isImplementationDetail then continue
+    let ty ← instantiateMVars d.type
+    if ty.isConstOf n then
+      let gs ← (← getMainGoal).cases d.fvarId
+      replaceMainGoal (gs.map (·.mvarId)).toList
+      return
+  throwError "no hypothesis of type {n}"
+
+open Lean Elab Tactic Meta in
+/-- revert every key variable (hypotheses of type `Az`, `Lon`, `Tmp`, `Ord`) -/
+local elab "c05_revert_keys" : tactic => withMainContext do
+  let mut fvs : Array FVarId := #[]
+  for d in (← getLCtx) do
+    if d.isImplementationDetail then continue
+    let ty ← instantiateMVars d.type
+    if ty.isConstOf ``VK.Az || ty.isConstOf ``VK.Lon || ty.isConstOf ``VK.Tmp || ty.isConstOf ``VK.Ord then
+      fvs := fvs.push d.fvarId
+  let (_, g) ← (← getMainGoal).revert fvs
+  replaceMainGoal [g]
+
+open Lean in
+/-- `c05_tab_thm M`: the theorem `exec_tab.M` — if `M.evalL k a = some (out, ret)` then `ret` is the declared result of `k`
+in the generated table of `M`.  Proof: unfold `M.evalL`, destructure the key, and look all keys of that form up in the
+table by kernel evaluation. -/
+local macro "c05_tab_thm " m:ident : command => do
+  let f := mkIdent (m.getId ++ `evalL)
+  let thm := mkIdent (`exec_tab ++ m.getId)
+  let c := mkIdent (`VK.ModuleId ++ m.getId)
+  `(command|
+    set_option maxRecDepth 100000 in
+    private theorem $thm {S : Type} [Scalar S] (k : List KA) (a : List S) (out : Out S (VE.B S)) (ret : Ret)
+        (h : $f k a = some (out, ret)) : declared $c k = some ret := by
+      unfold $f at h
+      split at h
+      · repeat (c05_cases_one KA <;> simp [KA.az?, KA.lon?, KA.tmp?, KA.ord?] at h)
+        obtain ⟨-, h2⟩ := h
+        subst h2
+        c05_revert_keys
+        decide +kernel
+      · cases h)
+
+c05_tab_thm lorentz_Et
+c05_tab_thm lorentz_Et2
+c05_tab_thm lorentz_Mt
+c05_tab_thm lorentz_Mt2
+c05_tab_thm lorentz_add
+c05_tab_thm lorentz_beta
+c05_tab_thm lorentz_boostX_beta
+c05_tab_thm lorentz_boostX_gamma
+c05_tab_thm lorentz_boostY_beta
+c05_tab_thm lorentz_boostY_gamma
+c05_tab_thm lorentz_boostZ_beta
+c05_tab_thm lorentz_boostZ_gamma
+c05_tab_thm lorentz_boost_beta3
+c05_tab_thm lorentz_boost_p4
+c05_tab_thm lorentz_deltaRapidityPhi
+c05_tab_thm lorentz_deltaRapidityPhi2
+c05_tab_thm lorentz_dot
+c05_tab_thm lorentz_equal
+c05_tab_thm lorentz_gamma
+c05_tab_thm lorentz_is_lightlike
+c05_tab_thm lorentz_is_spacelike
+c05_tab_thm lorentz_is_timelike
+c05_tab_thm lorentz_isclose
+c05_tab_thm lorentz_not_equal
+c05_tab_thm lorentz_rapidity
+c05_tab_thm lorentz_scale
+c05_tab_thm lorentz_subtract
+c05_tab_thm lorentz_t
+c05_tab_thm lorentz_t2
+c05_tab_thm lorentz_tau
+c05_tab_thm lorentz_tau2
+c05_tab_thm lorentz_to_beta3
+c05_tab_thm lorentz_transform4D
+c05_tab_thm lorentz_unit
+c05_tab_thm planar_add
+c05_tab_thm planar_deltaphi
+c05_tab_thm planar_dot
+c05_tab_thm planar_equal
+c05_tab_thm planar_is_antiparallel
+c05_tab_thm planar_is_parallel
+c05_tab_thm planar_is_perpendicular
+c05_tab_thm planar_isclose
+c05_tab_thm planar_not_equal
+c05_tab_thm planar_phi
+c05_tab_thm planar_rho
+c05_tab_thm planar_rho2
+c05_tab_thm planar_rotateZ
+c05_tab_thm planar_scale
+c05_tab_thm planar_subtract
+c05_tab_thm planar_transform2D
+c05_tab_thm planar_unit
+c05_tab_thm planar_x
+c05_tab_thm planar_y
+c05_tab_thm spatial_add
+c05_tab_thm spatial_costheta
+c05_tab_thm spatial_cottheta
+c05_tab_thm spatial_cross
+c05_tab_thm spatial_deltaR
+c05_tab_thm spatial_deltaR2
+c05_tab_thm spatial_deltaangle
+c05_tab_thm spatial_deltaeta
+c05_tab_thm spatial_dot
+c05_tab_thm spatial_equal
+c05_tab_thm spatial_eta
+c05_tab_thm spatial_is_antiparallel
+c05_tab_thm spatial_is_parallel
+c05_tab_thm spatial_is_perpendicular
+c05_tab_thm spatial_isclose
+c05_tab_thm spatial_mag
+c05_tab_thm spatial_mag2
+c05_tab_thm spatial_not_equal
+c05_tab_thm spatial_rotateX
+c05_tab_thm spatial_rotateY
+c05_tab_thm spatial_rotate_axis
+c05_tab_thm spatial_rotate_euler
+c05_tab_thm spatial_rotate_quaternion
+c05_tab_thm spatial_scale
+c05_tab_thm spatial_subtract
+c05_tab_thm spatial_theta
+c05_tab_thm spatial_transform3D
+c05_tab_thm spatial_unit
+c05_tab_thm spatial_z
+
+open Lean Elab Tactic Meta in
+/-- `cases` on the first hypothesis whose type is a `List` -/
+local elab "c05_cases_list" : tactic => withMainContext do
+  for d in (← getLCtx) do
+    if d.isImplementationDetail then continue
+    let ty ← instantiateMVars d.type
+    if ty.isAppOfArity ``List 1 then
+      let gs ← (← getMainGoal).cases d.fvarId
+      replaceMainGoal (gs.map (·.mvarId)).toList
+      return
+  throwError "no hypothesis of List type"
+
+open Lean in
+/-- `c05_total_thm M`: the theorem `exec_total.M` — `M.evalL` is defined on every key of the module's key type and every
+argument list of the module's arity. -/
+local macro "c05_total_thm " m:ident : command => do
+  let f := mkIdent (m.getId ++ `evalL)
+  let thm := mkIdent (`exec_total ++ m.getId)
+  let c := mkIdent (`VK.ModuleId ++ m.getId)
+  `(command|
+    private theorem $thm {S : Type} [Scalar S] (k : List KA) (a : List S)
+        (hk : keyFits k (ModuleId.info $c).shape = true)
+        (ha : a.length = (ModuleId.info $c).nscalar + (ModuleId.info $c).ncoord) :
+        (($f k a).isSome : Bool) = true := by
+      simp only [ModuleId.info] at hk ha
+      repeat (c05_cases_list <;> simp [keyFits] at hk ha)
+      repeat (c05_cases_one KA <;> simp [KA.fits] at hk)
+      rfl)
+
+c05_total_thm lorentz_Et
+c05_total_thm lorentz_Et2
+c05_total_thm lorentz_Mt
+c05_total_thm lorentz_Mt2
+c05_total_thm lorentz_add
+c05_total_thm lorentz_beta
+c05_total_thm lorentz_boostX_beta
+c05_total_thm lorentz_boostX_gamma
+c05_total_thm lorentz_boostY_beta
+c05_total_thm lorentz_boostY_gamma
+c05_total_thm lorentz_boostZ_beta
+c05_total_thm lorentz_boostZ_gamma
+c05_total_thm lorentz_boost_beta3
+c05_total_thm lorentz_boost_p4
+c05_total_thm lorentz_deltaRapidityPhi
+c05_total_thm lorentz_deltaRapidityPhi2
+c05_total_thm lorentz_dot
+c05_total_thm lorentz_equal
+c05_total_thm lorentz_gamma
+c05_total_thm lorentz_is_lightlike
+c05_total_thm lorentz_is_spacelike
+c05_total_thm lorentz_is_timelike
+c05_total_thm lorentz_isclose
+c05_total_thm lorentz_not_equal
+c05_total_thm lorentz_rapidity
+c05_total_thm lorentz_scale
+c05_total_thm lorentz_subtract
+c05_total_thm lorentz_t
+c05_total_thm lorentz_t2
+c05_total_thm lorentz_tau
+c05_total_thm lorentz_tau2
+c05_total_thm lorentz_to_beta3
+c05_total_thm lorentz_transform4D
+c05_total_thm lorentz_unit
+c05_total_thm planar_add
+c05_total_thm planar_deltaphi
+c05_total_thm planar_dot
+c05_total_thm planar_equal
+c05_total_thm planar_is_antiparallel
+c05_total_thm planar_is_parallel
+c05_total_thm planar_is_perpendicular
+c05_total_thm planar_isclose
+c05_total_thm planar_not_equal
+c05_total_thm planar_phi
+c05_total_thm planar_rho
+c05_total_thm planar_rho2
+c05_total_thm planar_rotateZ
+c05_total_thm planar_scale
+c05_total_thm planar_subtract
+c05_total_thm planar_transform2D
+c05_total_thm planar_unit
+c05_total_thm planar_x
+c05_total_thm planar_y
+c05_total_thm spatial_add
+c05_total_thm spatial_costheta
+c05_total_thm spatial_cottheta
+c05_total_thm spatial_cross
+c05_total_thm spatial_deltaR
+c05_total_thm spatial_deltaR2
+c05_total_thm spatial_deltaangle
+c05_total_thm spatial_deltaeta
+c05_total_thm spatial_dot
+c05_total_thm spatial_equal
+c05_total_thm spatial_eta
+c05_total_thm spatial_is_antiparallel
+c05_total_thm spatial_is_parallel
+c05_total_thm spatial_is_perpendicular
+c05_total_thm spatial_isclose
+c05_total_thm spatial_mag
+c05_total_thm spatial_mag2
+c05_total_thm spatial_not_equal
+c05_total_thm spatial_rotateX
+c05_total_thm spatial_rotateY
+c05_total_thm spatial_rotate_axis
+c05_total_thm spatial_rotate_euler
+c05_total_thm spatial_rotate_quaternion
+c05_total_thm spatial_scale
+c05_total_thm spatial_subtract
+c05_total_thm spatial_theta
+c05_total_thm spatial_transform3D
+c05_total_thm spatial_unit
+c05_total_thm spatial_z
+
+open Lean in
+/-- `c05_out_thm M`: the theorem `exec_out.M` — the raw result of `M.evalL` has the form the module's kind declares. -/
+local macro "c05_out_thm " m:ident : command => do
+  let f := mkIdent (m.getId ++ `evalL)
+  let thm := mkIdent (`exec_out ++ m.getId)
+  let c := mkIdent (`VK.ModuleId ++ m.getId)
+  `(command|
+    private theorem $thm {S : Type} [Scalar S] (k : List KA) (a : List S) (out : Out S (VE.B S)) (ret : Ret)
+        (h : $f k a = some (out, ret)) : outFitsKind out (ModuleId.kind $c) = true := by
+      unfold $f at h
+      split at h
+      · repeat (c05_cases_one KA <;> simp [KA.az?, KA.lon?, KA.tmp?, KA.ord?] at h)
+        obtain ⟨h1, -⟩ := h
+        subst h1
+        rfl
+      · cases h)
+
+c05_out_thm lorentz_Et
+c05_out_thm lorentz_Et2
+c05_out_thm lorentz_Mt
+c05_out_thm lorentz_Mt2
+c05_out_thm lorentz_add
+c05_out_thm lorentz_beta
+c05_out_thm lorentz_boostX_beta
+c05_out_thm lorentz_boostX_gamma
+c05_out_thm lorentz_boostY_beta
+c05_out_thm lorentz_boostY_gamma
+c05_out_thm lorentz_boostZ_beta
+c05_out_thm lorentz_boostZ_gamma
+c05_out_thm lorentz_boost_beta3
+c05_out_thm lorentz_boost_p4
+c05_out_thm lorentz_deltaRapidityPhi
+c05_out_thm lorentz_deltaRapidityPhi2
+c05_out_thm lorentz_dot
+c05_out_thm lorentz_equal
+c05_out_thm lorentz_gamma
+c05_out_thm lorentz_is_lightlike
+c05_out_thm lorentz_is_spacelike
+c05_out_thm lorentz_is_timelike
+c05_out_thm lorentz_isclose
+c05_out_thm lorentz_not_equal
+c05_out_thm lorentz_rapidity
+c05_out_thm lorentz_scale
+c05_out_thm lorentz_subtract
+c05_out_thm lorentz_t
+c05_out_thm lorentz_t2
+c05_out_thm lorentz_tau
+c05_out_thm lorentz_tau2
+c05_out_thm lorentz_to_beta3
+c05_out_thm lorentz_transform4D
+c05_out_thm lorentz_unit
+c05_out_thm planar_add
+c05_out_thm planar_deltaphi
+c05_out_thm planar_dot
+c05_out_thm planar_equal
+c05_out_thm planar_is_antiparallel
+c05_out_thm planar_is_parallel
+c05_out_thm planar_is_perpendicular
+c05_out_thm planar_isclose
+c05_out_thm planar_not_equal
+c05_out_thm planar_phi
+c05_out_thm planar_rho
+c05_out_thm planar_rho2
+c05_out_thm planar_rotateZ
+c05_out_thm planar_scale
+c05_out_thm planar_subtract
+c05_out_thm planar_transform2D
+c05_out_thm planar_unit
+c05_out_thm planar_x
+c05_out_thm planar_y
+c05_out_thm spatial_add
+c05_out_thm spatial_costheta
+c05_out_thm spatial_cottheta
+c05_out_thm spatial_cross
+c05_out_thm spatial_deltaR
+c05_out_thm spatial_deltaR2
+c05_out_thm spatial_deltaangle
+c05_out_thm spatial_deltaeta
+c05_out_thm spatial_dot
+c05_out_thm spatial_equal
+c05_out_thm spatial_eta
+c05_out_thm spatial_is_antiparallel
+c05_out_thm spatial_is_parallel
+c05_out_thm spatial_is_perpendicular
+c05_out_thm spatial_isclose
+c05_out_thm spatial_mag
+c05_out_thm spatial_mag2
+c05_out_thm spatial_not_equal
+c05_out_thm spatial_rotateX
+c05_out_thm spatial_rotateY
+c05_out_thm spatial_rotate_axis
+c05_out_thm spatial_rotate_euler
+c05_out_thm spatial_rotate_quaternion
+c05_out_thm spatial_scale
+c05_out_thm spatial_subtract
+c05_out_thm spatial_theta
+c05_out_thm spatial_transform3D
+c05_out_thm spatial_unit
+c05_out_thm spatial_z
+
+section
+variable {S : Type} [Scalar S]
+
+private theorem exec_ret_declared (m : ModuleId) (k : List KA) (a : List S) (out : Out S (VE.B S)) (ret : Ret)
+    (h : Compute.eval m k a = some (out, ret)) : declared m k = some ret :=
+  match m, h with
+  | .lorentz_Et, h => exec_tab.lorentz_Et k a out ret h
+  | .lorentz_Et2, h => exec_tab.lorentz_Et2 k a out ret h
+  | .lorentz_Mt, h => exec_tab.lorentz_Mt k a out ret h
+  | .lorentz_Mt2, h => exec_tab.lorentz_Mt2 k a out ret h
+  | .lorentz_add, h => exec_tab.lorentz_add k a out ret h
+  | .lorentz_beta, h => exec_tab.lorentz_beta k a out ret h
+  | .lorentz_boostX_beta, h => exec_tab.lorentz_boostX_beta k a out ret h
+  | .lorentz_boostX_gamma, h => exec_tab.lorentz_boostX_gamma k a out ret h
+  | .lorentz_boostY_beta, h => exec_tab.lorentz_boostY_beta k a out ret h
+  | .lorentz_boostY_gamma, h => exec_tab.lorentz_boostY_gamma k a out ret h
+  | .lorentz_boostZ_beta, h => exec_tab.lorentz_boostZ_beta k a out ret h
+  | .lorentz_boostZ_gamma, h => exec_tab.lorentz_boostZ_gamma k a out ret h
+  | .lorentz_boost_beta3, h => exec_tab.lorentz_boost_beta3 k a out ret h
+  | .lorentz_boost_p4, h => exec_tab.lorentz_boost_p4 k a out ret h
+  | .lorentz_deltaRapidityPhi, h => exec_tab.lorentz_deltaRapidityPhi k a out ret h
+  | .lorentz_deltaRapidityPhi2, h => exec_tab.lorentz_deltaRapidityPhi2 k a out ret h
+  | .lorentz_dot, h => exec_tab.lorentz_dot k a out ret h
+  | .lorentz_equal, h => exec_tab.lorentz_equal k a out ret h
+  | .lorentz_gamma, h => exec_tab.lorentz_gamma k a out ret h
+  | .lorentz_is_lightlike, h => exec_tab.lorentz_is_lightlike k a out ret h
+  | .lorentz_is_spacelike, h => exec_tab.lorentz_is_spacelike k a out ret h
+  | .lorentz_is_timelike, h => exec_tab.lorentz_is_timelike k a out ret h
+  | .lorentz_isclose, h => exec_tab.lorentz_isclose k a out ret h
+  | .lorentz_not_equal, h => exec_tab.lorentz_not_equal k a out ret h
+  | .lorentz_rapidity, h => exec_tab.lorentz_rapidity k a out ret h
+  | .lorentz_scale, h => exec_tab.lorentz_scale k a out ret h
+  | .lorentz_subtract, h => exec_tab.lorentz_subtract k a out ret h
+  | .lorentz_t, h => exec_tab.lorentz_t k a out ret h
+  | .lorentz_t2, h => exec_tab.lorentz_t2 k a out ret h
+  | .lorentz_tau, h => exec_tab.lorentz_tau k a out ret h
+  | .lorentz_tau2, h => exec_tab.lorentz_tau2 k a out ret h
+  | .lorentz_to_beta3, h => exec_tab.lorentz_to_beta3 k a out ret h
+  | .lorentz_transform4D, h => exec_tab.lorentz_transform4D k a out ret h
+  | .lorentz_unit, h => exec_tab.lorentz_unit k a out ret h
+  | .planar_add, h => exec_tab.planar_add k a out ret h
+  | .planar_deltaphi, h => exec_tab.planar_deltaphi k a out ret h
+  | .planar_dot, h => exec_tab.planar_dot k a out ret h
+  | .planar_equal, h => exec_tab.planar_equal k a out ret h
+  | .planar_is_antiparallel, h => exec_tab.planar_is_antiparallel k a out ret h
+  | .planar_is_parallel, h => exec_tab.planar_is_parallel k a out ret h
+  | .planar_is_perpendicular, h => exec_tab.planar_is_perpendicular k a out ret h
+  | .planar_isclose, h => exec_tab.planar_isclose k a out ret h
+  | .planar_not_equal, h => exec_tab.planar_not_equal k a out ret h
+  | .planar_phi, h => exec_tab.planar_phi k a out ret h
+  | .planar_rho, h => exec_tab.planar_rho k a out ret h
+  | .planar_rho2, h => exec_tab.planar_rho2 k a out ret h
+  | .planar_rotateZ, h => exec_tab.planar_rotateZ k a out ret h
+  | .planar_scale, h => exec_tab.planar_scale k a out ret h
+  | .planar_subtract, h => exec_tab.planar_subtract k a out ret h
+  | .planar_transform2D, h => exec_tab.planar_transform2D k a out ret h
+  | .planar_unit, h => exec_tab.planar_unit k a out ret h
+  | .planar_x, h => exec_tab.planar_x k a out ret h
+  | .planar_y, h => exec_tab.planar_y k a out ret h
+  | .spatial_add, h => exec_tab.spatial_add k a out ret h
+  | .spatial_costheta, h => exec_tab.spatial_costheta k a out ret h
+  | .spatial_cottheta, h => exec_tab.spatial_cottheta k a out ret h
+  | .spatial_cross, h => exec_tab.spatial_cross k a out ret h
+  | .spatial_deltaR, h => exec_tab.spatial_deltaR k a out ret h
+  | .spatial_deltaR2, h => exec_tab.spatial_deltaR2 k a out ret h
+  | .spatial_deltaangle, h => exec_tab.spatial_deltaangle k a out ret h
+  | .spatial_deltaeta, h => exec_tab.spatial_deltaeta k a out ret h
+  | .spatial_dot, h => exec_tab.spatial_dot k a out ret h
+  | .spatial_equal, h => exec_tab.spatial_equal k a out ret h
+  | .spatial_eta, h => exec_tab.spatial_eta k a out ret h
+  | .spatial_is_antiparallel, h => exec_tab.spatial_is_antiparallel k a out ret h
+  | .spatial_is_parallel, h => exec_tab.spatial_is_parallel k a out ret h
+  | .spatial_is_perpendicular, h => exec_tab.spatial_is_perpendicular k a out ret h
+  | .spatial_isclose, h => exec_tab.spatial_isclose k a out ret h
+  | .spatial_mag, h => exec_tab.spatial_mag k a out ret h
+  | .spatial_mag2, h => exec_tab.spatial_mag2 k a out ret h
+  | .spatial_not_equal, h => exec_tab.spatial_not_equal k a out ret h
+  | .spatial_rotateX, h => exec_tab.spatial_rotateX k a out ret h
+  | .spatial_rotateY, h => exec_tab.spatial_rotateY k a out ret h
+  | .spatial_rotate_axis, h => exec_tab.spatial_rotate_axis k a out ret h
+  | .spatial_rotate_euler, h => exec_tab.spatial_rotate_euler k a out ret h
+  | .spatial_rotate_quaternion, h => exec_tab.spatial_rotate_quaternion k a out ret h
+  | .spatial_scale, h => exec_tab.spatial_scale k a out ret h
+  | .spatial_subtract, h => exec_tab.spatial_subtract k a out ret h
+  | .spatial_theta, h => exec_tab.spatial_theta k a out ret h
+  | .spatial_transform3D, h => exec_tab.spatial_transform3D k a out ret h
+  | .spatial_unit, h => exec_tab.spatial_unit k a out ret h
+  | .spatial_z, h => exec_tab.spatial_z k a out ret h
+
+private theorem exec_out_fits (m : ModuleId) (k : List KA) (a : List S) (out : Out S (VE.B S)) (ret : Ret)
+    (h : Compute.eval m k a = some (out, ret)) : outFitsKind out m.kind = true :=
+  match m, h with
+  | .lorentz_Et, h => exec_out.lorentz_Et k a out ret h
+  | .lorentz_Et2, h => exec_out.lorentz_Et2 k a out ret h
+  | .lorentz_Mt, h => exec_out.lorentz_Mt k a out ret h
+  | .lorentz_Mt2, h => exec_out.lorentz_Mt2 k a out ret h
+  | .lorentz_add, h => exec_out.lorentz_add k a out ret h
+  | .lorentz_beta, h => exec_out.lorentz_beta k a out ret h
+  | .lorentz_boostX_beta, h => exec_out.lorentz_boostX_beta k a out ret h
+  | .lorentz_boostX_gamma, h => exec_out.lorentz_boostX_gamma k a out ret h
+  | .lorentz_boostY_beta, h => exec_out.lorentz_boostY_beta k a out ret h
+  | .lorentz_boostY_gamma, h => exec_out.lorentz_boostY_gamma k a out ret h
+  | .lorentz_boostZ_beta, h => exec_out.lorentz_boostZ_beta k a out ret h
+  | .lorentz_boostZ_gamma, h => exec_out.lorentz_boostZ_gamma k a out ret h
+  | .lorentz_boost_beta3, h => exec_out.lorentz_boost_beta3 k a out ret h
+  | .lorentz_boost_p4, h => exec_out.lorentz_boost_p4 k a out ret h
+  | .lorentz_deltaRapidityPhi, h => exec_out.lorentz_deltaRapidityPhi k a out ret h
+  | .lorentz_deltaRapidityPhi2, h => exec_out.lorentz_deltaRapidityPhi2 k a out ret h
+  | .lorentz_dot, h => exec_out.lorentz_dot k a out ret h
+  | .lorentz_equal, h => exec_out.lorentz_equal k a out ret h
+  | .lorentz_gamma, h => exec_out.lorentz_gamma k a out ret h
+  | .lorentz_is_lightlike, h => exec_out.lorentz_is_lightlike k a out ret h
+  | .lorentz_is_spacelike, h => exec_out.lorentz_is_spacelike k a out ret h
+  | .lorentz_is_timelike, h => exec_out.lorentz_is_timelike k a out ret h
+  | .lorentz_isclose, h => exec_out.lorentz_isclose k a out ret h
+  | .lorentz_not_equal, h => exec_out.lorentz_not_equal k a out ret h
+  | .lorentz_rapidity, h => exec_out.lorentz_rapidity k a out ret h
+  | .lorentz_scale, h => exec_out.lorentz_scale k a out ret h
+  | .lorentz_subtract, h => exec_out.lorentz_subtract k a out ret h
+  | .lorentz_t, h => exec_out.lorentz_t k a out ret h
+  | .lorentz_t2, h => exec_out.lorentz_t2 k a out ret h
+  | .lorentz_tau, h => exec_out.lorentz_tau k a out ret h
+  | .lorentz_tau2, h => exec_out.lorentz_tau2 k a out ret h
+  | .lorentz_to_beta3, h => exec_out.lorentz_to_beta3 k a out ret h
+  | .lorentz_transform4D, h => exec_out.lorentz_transform4D k a out ret h
+  | .lorentz_unit, h => exec_out.lorentz_unit k a out ret h
+  | .planar_add, h => exec_out.planar_add k a out ret h
+  | .planar_deltaphi, h => exec_out.planar_deltaphi k a out ret h
+  | .planar_dot, h => exec_out.planar_dot k a out ret h
+  | .planar_equal, h => exec_out.planar_equal k a out ret h
+  | .planar_is_antiparallel, h => exec_out.planar_is_antiparallel k a out ret h
+  | .planar_is_parallel, h => exec_out.planar_is_parallel k a out ret h
+  | .planar_is_perpendicular, h => exec_out.planar_is_perpendicular k a out ret h
+  | .planar_isclose, h => exec_out.planar_isclose k a out ret h
+  | .planar_not_equal, h => exec_out.planar_not_equal k a out ret h
+  | .planar_phi, h => exec_out.planar_phi k a out ret h
+  | .planar_rho, h => exec_out.planar_rho k a out ret h
+  | .planar_rho2, h => exec_out.planar_rho2 k a out ret h
+  | .planar_rotateZ, h => exec_out.planar_rotateZ k a out ret h
+  | .planar_scale, h => exec_out.planar_scale k a out ret h
+  | .planar_subtract, h => exec_out.planar_subtract k a out ret h
+  | .planar_transform2D, h => exec_out.planar_transform2D k a out ret h
+  | .planar_unit, h => exec_out.planar_unit k a out ret h
+  | .planar_x, h => exec_out.planar_x k a out ret h
+  | .planar_y, h => exec_out.planar_y k a out ret h
+  | .spatial_add, h => exec_out.spatial_add k a out ret h
+  | .spatial_costheta, h => exec_out.spatial_costheta k a out ret h
+  | .spatial_cottheta, h => exec_out.spatial_cottheta k a out ret h
+  | .spatial_cross, h => exec_out.spatial_cross k a out ret h
+  | .spatial_deltaR, h => exec_out.spatial_deltaR k a out ret h
+  | .spatial_deltaR2, h => exec_out.spatial_deltaR2 k a out ret h
+  | .spatial_deltaangle, h => exec_out.spatial_deltaangle k a out ret h
+  | .spatial_deltaeta, h => exec_out.spatial_deltaeta k a out ret h
+  | .spatial_dot, h => exec_out.spatial_dot k a out ret h
+  | .spatial_equal, h => exec_out.spatial_equal k a out ret h
+  | .spatial_eta, h => exec_out.spatial_eta k a out ret h
+  | .spatial_is_antiparallel, h => exec_out.spatial_is_antiparallel k a out ret h
+  | .spatial_is_parallel, h => exec_out.spatial_is_parallel k a out ret h
+  | .spatial_is_perpendicular, h => exec_out.spatial_is_perpendicular k a out ret h
+  | .spatial_isclose, h => exec_out.spatial_isclose k a out ret h
+  | .spatial_mag, h => exec_out.spatial_mag k a out ret h
+  | .spatial_mag2, h => exec_out.spatial_mag2 k a out ret h
+  | .spatial_not_equal, h => exec_out.spatial_not_equal k a out ret h
+  | .spatial_rotateX, h => exec_out.spatial_rotateX k a out ret h
+  | .spatial_rotateY, h => exec_out.spatial_rotateY k a out ret h
+  | .spatial_rotate_axis, h => exec_out.spatial_rotate_axis k a out ret h
+  | .spatial_rotate_euler, h => exec_out.spatial_rotate_euler k a out ret h
+  | .spatial_rotate_quaternion, h => exec_out.spatial_rotate_quaternion k a out ret h
+  | .spatial_scale, h => exec_out.spatial_scale k a out ret h
+  | .spatial_subtract, h => exec_out.spatial_subtract k a out ret h
+  | .spatial_theta, h => exec_out.spatial_theta k a out ret h
+  | .spatial_transform3D, h => exec_out.spatial_transform3D k a out ret h
+  | .spatial_unit, h => exec_out.spatial_unit k a out ret h
+  | .spatial_z, h => exec_out.spatial_z k a out ret h
+
+/-- C05, "every method is defined for every coordinate system of its operands", at the compute layer: the generated
+executable model evaluates every module on EVERY key of the module's key type (and every argument list of the
+module's arity) — no combination of coordinate systems is missing -/
+theorem c05_exec_total (m : ModuleId) (k : List KA) (a : List S) (hk : keyFits k m.info.shape = true)
+    (ha : a.length = m.info.nscalar + m.info.ncoord) : (Compute.eval m k a).isSome = true :=
+  match m, hk, ha with
+  | .lorentz_Et, hk, ha => exec_total.lorentz_Et k a hk ha
+  | .lorentz_Et2, hk, ha => exec_total.lorentz_Et2 k a hk ha
+  | .lorentz_Mt, hk, ha => exec_total.lorentz_Mt k a hk ha
+  | .lorentz_Mt2, hk, ha => exec_total.lorentz_Mt2 k a hk ha
+  | .lorentz_add, hk, ha => exec_total.lorentz_add k a hk ha
+  | .lorentz_beta, hk, ha => exec_total.lorentz_beta k a hk ha
+  | .lorentz_boostX_beta, hk, ha => exec_total.lorentz_boostX_beta k a hk ha
+  | .lorentz_boostX_gamma, hk, ha => exec_total.lorentz_boostX_gamma k a hk ha
+  | .lorentz_boostY_beta, hk, ha => exec_total.lorentz_boostY_beta k a hk ha
+  | .lorentz_boostY_gamma, hk, ha => exec_total.lorentz_boostY_gamma k a hk ha
+  | .lorentz_boostZ_beta, hk, ha => exec_total.lorentz_boostZ_beta k a hk ha
+  | .lorentz_boostZ_gamma, hk, ha => exec_total.lorentz_boostZ_gamma k a hk ha
+  | .lorentz_boost_beta3, hk, ha => exec_total.lorentz_boost_beta3 k a hk ha
+  | .lorentz_boost_p4, hk, ha => exec_total.lorentz_boost_p4 k a hk ha
+  | .lorentz_deltaRapidityPhi, hk, ha => exec_total.lorentz_deltaRapidityPhi k a hk ha
+  | .lorentz_deltaRapidityPhi2, hk, ha => exec_total.lorentz_deltaRapidityPhi2 k a hk ha
+  | .lorentz_dot, hk, ha => exec_total.lorentz_dot k a hk ha
+  | .lorentz_equal, hk, ha => exec_total.lorentz_equal k a hk ha
+  | .lorentz_gamma, hk, ha => exec_total.lorentz_gamma k a hk ha
+  | .lorentz_is_lightlike, hk, ha => exec_total.lorentz_is_lightlike k a hk ha
+  | .lorentz_is_spacelike, hk, ha => exec_total.lorentz_is_spacelike k a hk ha
+  | .lorentz_is_timelike, hk, ha => exec_total.lorentz_is_timelike k a hk ha
+  | .lorentz_isclose, hk, ha => exec_total.lorentz_isclose k a hk ha
+  | .lorentz_not_equal, hk, ha => exec_total.lorentz_not_equal k a hk ha
+  | .lorentz_rapidity, hk, ha => exec_total.lorentz_rapidity k a hk ha
+  | .lorentz_scale, hk, ha => exec_total.lorentz_scale k a hk ha
+  | .lorentz_subtract, hk, ha => exec_total.lorentz_subtract k a hk ha
+  | .lorentz_t, hk, ha => exec_total.lorentz_t k a hk ha
+  | .lorentz_t2, hk, ha => exec_total.lorentz_t2 k a hk ha
+  | .lorentz_tau, hk, ha => exec_total.lorentz_tau k a hk ha
+  | .lorentz_tau2, hk, ha => exec_total.lorentz_tau2 k a hk ha
+  | .lorentz_to_beta3, hk, ha => exec_total.lorentz_to_beta3 k a hk ha
+  | .lorentz_transform4D, hk, ha => exec_total.lorentz_transform4D k a hk ha
+  | .lorentz_unit, hk, ha => exec_total.lorentz_unit k a hk ha
+  | .planar_add, hk, ha => exec_total.planar_add k a hk ha
+  | .planar_deltaphi, hk, ha => exec_total.planar_deltaphi k a hk ha
+  | .planar_dot, hk, ha => exec_total.planar_dot k a hk ha
+  | .planar_equal, hk, ha => exec_total.planar_equal k a hk ha
+  | .planar_is_antiparallel, hk, ha => exec_total.planar_is_antiparallel k a hk ha
+  | .planar_is_parallel, hk, ha => exec_total.planar_is_parallel k a hk ha
+  | .planar_is_perpendicular, hk, ha => exec_total.planar_is_perpendicular k a hk ha
+  | .planar_isclose, hk, ha => exec_total.planar_isclose k a hk ha
+  | .planar_not_equal, hk, ha => exec_total.planar_not_equal k a hk ha
+  | .planar_phi, hk, ha => exec_total.planar_phi k a hk ha
+  | .planar_rho, hk, ha => exec_total.planar_rho k a hk ha
+  | .planar_rho2, hk, ha => exec_total.planar_rho2 k a hk ha
+  | .planar_rotateZ, hk, ha => exec_total.planar_rotateZ k a hk ha
+  | .planar_scale, hk, ha => exec_total.planar_scale k a hk ha
+  | .planar_subtract, hk, ha => exec_total.planar_subtract k a hk ha
+  | .planar_transform2D, hk, ha => exec_total.planar_transform2D k a hk ha
+  | .planar_unit, hk, ha => exec_total.planar_unit k a hk ha
+  | .planar_x, hk, ha => exec_total.planar_x k a hk ha
+  | .planar_y, hk, ha => exec_total.planar_y k a hk ha
+  | .spatial_add, hk, ha => exec_total.spatial_add k a hk ha
+  | .spatial_costheta, hk, ha => exec_total.spatial_costheta k a hk ha
+  | .spatial_cottheta, hk, ha => exec_total.spatial_cottheta k a hk ha
+  | .spatial_cross, hk, ha => exec_total.spatial_cross k a hk ha
+  | .spatial_deltaR, hk, ha => exec_total.spatial_deltaR k a hk ha
+  | .spatial_deltaR2, hk, ha => exec_total.spatial_deltaR2 k a hk ha
+  | .spatial_deltaangle, hk, ha => exec_total.spatial_deltaangle k a hk ha
+  | .spatial_deltaeta, hk, ha => exec_total.spatial_deltaeta k a hk ha
+  | .spatial_dot, hk, ha => exec_total.spatial_dot k a hk ha
+  | .spatial_equal, hk, ha => exec_total.spatial_equal k a hk ha
+  | .spatial_eta, hk, ha => exec_total.spatial_eta k a hk ha
+  | .spatial_is_antiparallel, hk, ha => exec_total.spatial_is_antiparallel k a hk ha
+  | .spatial_is_parallel, hk, ha => exec_total.spatial_is_parallel k a hk ha
+  | .spatial_is_perpendicular, hk, ha => exec_total.spatial_is_perpendicular k a hk ha
+  | .spatial_isclose, hk, ha => exec_total.spatial_isclose k a hk ha
+  | .spatial_mag, hk, ha => exec_total.spatial_mag k a hk ha
+  | .spatial_mag2, hk, ha => exec_total.spatial_mag2 k a hk ha
+  | .spatial_not_equal, hk, ha => exec_total.spatial_not_equal k a hk ha
+  | .spatial_rotateX, hk, ha => exec_total.spatial_rotateX k a hk ha
+  | .spatial_rotateY, hk, ha => exec_total.spatial_rotateY k a hk ha
+  | .spatial_rotate_axis, hk, ha => exec_total.spatial_rotate_axis k a hk ha
+  | .spatial_rotate_euler, hk, ha => exec_total.spatial_rotate_euler k a hk ha
+  | .spatial_rotate_quaternion, hk, ha => exec_total.spatial_rotate_quaternion k a hk ha
+  | .spatial_scale, hk, ha => exec_total.spatial_scale k a hk ha
+  | .spatial_subtract, hk, ha => exec_total.spatial_subtract k a hk ha
+  | .spatial_theta, hk, ha => exec_total.spatial_theta k a hk ha
+  | .spatial_transform3D, hk, ha => exec_total.spatial_transform3D k a hk ha
+  | .spatial_unit, hk, ha => exec_total.spatial_unit k a hk ha
+  | .spatial_z, hk, ha => exec_total.spatial_z k a hk ha
+
+/-- the generated executable model of the compute layer (at every scalar type) returns, for every key it accepts, the
+declared result recorded in the generated table -/
+theorem c05_exec_evTables : EvTables (S := S) (B := VE.B S) (fun m k a => Compute.eval m k a) :=
+  ⟨fun m k a out ret h => exec_ret_declared m k a out ret h⟩
+
+/-- … and is total, with raw results of the declared form -/
+theorem c05_exec_evTotal : EvTotal (S := S) (B := VE.B S) (fun m k a => Compute.eval m k a) :=
+  ⟨fun m k a hk ha => c05_exec_total m k a hk ha, fun m k a out ret h => exec_out_fits m k a out ret h⟩
+
+/-- the theorems above that assume `EvTables` / `EvTotal`, for the generated executable model -/
+theorem c05_exec_dispatch_type_only (m : ModuleId) (sc sc' : List S) (ord : Option Ord)
+    (ops ops' counted counted' : List (Vec S)) (r r' : Vec S)
+    (hops : ops.map (·.ty) = ops'.map (·.ty)) (hc : counted.map (·.ty) = counted'.map (·.ty))
+    (h : dispatch (B := VE.B S) (fun m k a => Compute.eval m k a) m sc ord ops counted = .ok (.vec r))
+    (h' : dispatch (B := VE.B S) (fun m k a => Compute.eval m k a) m sc' ord ops' counted' = .ok (.vec r')) :
+    r.ty = r'.ty :=
+  c05_dispatch_type_only _ c05_exec_evTables m sc sc' ord ops ops' counted counted' r r' hops hc h h'
+
+theorem c05_exec_binary_dim (K : Consts S) (b : Bin) (self o r : Vec S) (extra : List S)
+    (h : binary (B := VE.B S) (fun m k a => Compute.eval m k a) K b self o extra = .ok (.vec r)) :
+    r.ty.dim = if b = .cross then 3 else self.ty.dim :=
+  c05_binary_dim _ c05_exec_evTables K b self o r extra h
+
+theorem c05_exec_binary_sameDim_defined (K : Consts S) (b : Bin) (self o : Vec S) (hb : b.sameDim = true)
+    (hs : self.WF) (ho : o.WF) (hd : o.ty.dim = self.ty.dim) :
+    ∃ res, binary (B := VE.B S) (fun m k a => Compute.eval m k a) K b self o [] = .ok res :=
+  c05_binary_sameDim_defined _ c05_exec_evTotal c05_exec_evTables K b self o hb hs ho hd
 
 end
 end VG
